@@ -6,7 +6,7 @@ for id in "$@"; do
     b=$(basename $p)
     case $b in
       w2-*) f=RESULTS-wave2.txt;; w3-*) f=RESULTS-wave3.txt;; w4-*) f=RESULTS-wave4.txt;; w5-*) f=RESULTS-wave5.txt;;
-      w6-*) f=RESULTS-wave6.txt;; w7-*) f=RESULTS-wave7.txt;; w8-*) f=RESULTS-wave8.txt;; w9-*) f=RESULTS-wave9.txt;; *) f=RESULTS.txt;;
+      w6-*) f=RESULTS-wave6.txt;; w7-*) f=RESULTS-wave7.txt;; w8-*) f=RESULTS-wave8.txt;; w9-*) f=RESULTS-wave9.txt;; w10-*) f=RESULTS-wave10.txt;; *) f=RESULTS.txt;;
     esac
     line=$(/verif/scripts/seedcheck.sh $p $id 2>&1 | tail -1 | cut -c1-260 | sed "s#^\([A-Z]*\) *$id #\1 $id/#")
     python3 - "$f" "$id/$b" "$line" <<'PY'
